@@ -202,6 +202,27 @@ func gossipCmd(out *cq.Out, seed uint64, tier string) {
 		}
 		out.Count("membership_notifications", len(evs))
 	}
+	// the same batch arriving several times at once (gossip fan-in) at an agent whose cache answers in a millisecond: its
+	// tasks are created once and it is forwarded once
+	{
+		for trial := 0; trial < 3; trial++ {
+			cache := freecache.NewCache(gossip.DefaultConfig().CacheSize)
+			b := &protocol.BatchSnapshots{}
+			for j := 0; j < 5; j++ {
+				x := make([]byte, 32)
+				x[0], x[1], x[31] = 88, byte(trial), byte(j)
+				b.Snapshots = append(b.Snapshots, &protocol.SignedSnapshot{Snapshot: &protocol.Snapshot{EventDigest: x, HistoryDigest: x, HyperDigest: x, Version: uint64(j)}, Signature: append(make([]byte, 32), x...)})
+			}
+			tasks, fwd := gossip.VProcessorCopies(cache, time.Millisecond, 8, b)
+			out.Case(fmt.Sprintf("fan-in:%d", trial), true)
+			out.Count("fan_in_trials", 1)
+			if tasks != 1 || fwd != 1 {
+				out.Violate("C18:batch-processed-twice:simultaneous-copies", fmt.Sprintf("8 copies of one batch published on the agent's bus at once (cache latency 1 ms): tasks were created %d times and the batch was forwarded %d times; expected 1 and 1", tasks, fwd),
+					map[string]interface{}{"seed": seed, "copies": 8, "cache_latency_ms": 1})
+				break
+			}
+		}
+	}
 	// a batch that comes back late: longer after its first arrival than any timeout of the agent's configuration
 	// (gossip redelivers through other peers at arbitrary times); it must still be recognised
 	{
